@@ -510,7 +510,7 @@ func main() {
 	durVals := []int{0, 1, 2, 5, 10, 60, 100, 300, 400, 1000}
 	perms := []uint32{4, 5, 10, 11, 12, 13, 31, 32, 35, 36}
 
-	var coq strings.Builder
+	var lines []string // one Coq case per entry, parallel to js
 	var js []jhist
 
 	core, all := boundarySpecs()
@@ -1032,14 +1032,14 @@ func main() {
 				}
 			}
 		}
-		coq.WriteString(fmt.Sprintf("CHist %s %s\n", w0, hx.List(steps)))
+		lines = append(lines, fmt.Sprintf("CHist %s %s", w0, hx.List(steps)))
 		js = append(js, jh)
 	}
 
 	// ---- scripted atomicity scenarios on real multi-step handlers of other modules
 	for _, sr := range runScenarios(app, base) {
 		sr := sr
-		coq.WriteString(sr.coq() + "\n")
+		lines = append(lines, sr.coq())
 		js = append(js, jhist{Seed: seed, Index: len(js), Kind: "scenario", Scen: &sr})
 		dist.Inc("scenario:" + map[bool]string{true: "handler_ok", false: "handler_failed"}[sr.OK])
 	}
@@ -1048,7 +1048,30 @@ func main() {
 	f.WriteString("(* written by /verif/harness/cmd/c08 -- observations of the real code *)\n")
 	f.WriteString("From Sekai Require Import Base.Prelude Base.Dec Model.Gov Model.GovWorld Model.C08Check.\n")
 	out.WriteFile("pre.v", f.String())
-	out.WriteFile("cases.txt", coq.String())
+	// interleave the (long) random histories with the (short) boundary histories so that the shards
+	// evaluated in Coq are of similar size
+	{
+		nr, total := *n, len(lines)
+		var ol []string
+		var oj []jhist
+		ri, bi := 0, nr
+		for k := 0; k < total; k++ {
+			takeRandom := ri < nr && (bi >= total || (k+1)*nr/total > k*nr/total)
+			src := bi
+			if takeRandom {
+				src = ri
+				ri++
+			} else {
+				bi++
+			}
+			j := js[src]
+			j.Index = len(oj)
+			ol = append(ol, lines[src])
+			oj = append(oj, j)
+		}
+		lines, js = ol, oj
+	}
+	out.WriteFile("cases.txt", strings.Join(lines, "\n")+"\n")
 	out.WriteJSON("meta.json", map[string]string{"case_type": "c08_case", "mismatch_fn": "c08_mismatches", "violation_fn": "c08_violations"})
 	out.WriteJSON("cases.json", js)
 	out.WriteJSON("dist.json", map[string]interface{}{"seed": seed, "histories": len(js), "boundary_histories": len(specs), "boundary_core": len(core), "boundary_enumeration_size": len(all), "by_kind": dist})
